@@ -143,7 +143,7 @@ TR_MM = {"module": "Trace_MinMax", "cfg": "Trace_MinMax.cfg", "family": "minmax"
 
 HIST_BIG = {"cmd": "direct", "family": "histbig", "args": {"reps": ("200", "3000")}}
 
-GEN_INGEST = {"module": "Gen_Ingest", "cfg": "Gen_Ingest.cfg", "overrides": {"MaxLen": ("4", "5"), "MaxSteps": ("4", "5")}, "family": "ingest"}
+GEN_INGEST = {"module": "Gen_Ingest", "cfg": "Gen_Ingest.cfg", "overrides": {"MaxLen": ("4", "4"), "MaxSteps": ("3", "4")}, "family": "ingest"}
 
 PROPS = {
     "C01": {
@@ -405,14 +405,14 @@ PROPS = {
         "technique": 'TLC-generated ingestion behaviours + bitwise replay against the add loop',
         "title": "every ingestion path builds the same estimator; concatenate! adds nothing",
         "mc": [],
-        "replay": [{"module": "Gen_Ingest", "cfg": "Gen_Ingest.cfg", "overrides": {"MaxLen": ("4", "5"), "MaxSteps": ("4", "5")}, "family": "ingest"},
+        "replay": [GEN_INGEST,
                    gen_q("small", "E0"), gen_mm("seq", maxlen=("4", "5"))],
         "rule": "every behaviour of Ingest.tla: start by new / default / collect (value, reference), then any mix of extend (value, "
                 "reference, empty chunks included) and add, over every sequence up to the length bound; executed through the real "
                 "FromIterator / Extend impls of 7 moment types, Min, Max, WeightedMean, WeightedMeanWithError, Covariance and four "
                 "concatenate! structs (short and long syntax, 2-4 fields, a Probe estimator logging every forwarded add); all "
                 "accessors compared bit for bit with the plain add loop; estimate() against the headline accessor",
-        "bounds": {"quick": "sequences <= 4, <= 4 steps, chunks <= 2", "thorough": "sequences <= 5, <= 5 steps"},
+        "bounds": {"quick": "sequences <= 4, <= 3 steps, chunks <= 2, three iterator shapes per chunk (50,301 behaviours)", "thorough": "sequences <= 4, <= 4 steps (888,253 behaviours)"},
         "assumptions": ["Max has no Extend impl in this tree: extend steps fall back to add for Max",
                         "concatenate! structs have no Extend: behaviours containing extend are skipped for them (counted)"],
     },
